@@ -494,6 +494,10 @@ def xyz_reader(reader_class: ReadAndProcessOnTheFly) -> List[np.ndarray]:
         if i == 0 and spl:
             N_atoms = int(spl[0])
             block_size = N_atoms + 2  # 2 header lines
+        if block_size == 0:
+            # only blanks of the atom-count line are on disk so far (the
+            # writer was cut inside its leading blanks): no frame is ready
+            return trajectory
         # if we are not in the atom nr or header block
         if i % block_size > 1:
             # if there aren't enough values to iterate through
